@@ -12,6 +12,11 @@ CONSTANTS
   MainReadsErrs = TRUE
   GenVariants = {1}
   SlotRelease = "deferred"
+  TargetRule = "trimsuffix"
+  WalkRule = "filesonly"
+  OrphanStat = "fileonly"
+  RootRule = "exempt"
+  RootTrees <- TreesRoot
   SkipRule = "nounderscore"
   TwoRuns = FALSE
   EmitCases = FALSE
